@@ -159,7 +159,63 @@ pub fn real_sequence<T: Nums + Evaluate>(m: &mut Mon, r: &mut Rng, positive: boo
     h = hash_bits(h, xs.iter().map(|e| e.to_bits()));
     m.case(mix2(h, T::LEN as u64));
     m.count(&format!("sequences_real:{}", T::NAME));
-    let outs: Vec<f64> = match guard(|| pw.evaluate_v(xs.iter().cloned()).collect::<Vec<f64>>()) {
+    // how the lazy iterator is fed and drained: collect; a few next() then internal iteration; an unbounded source cut
+    // on the output side; a source without exact size hint; fold only; a second batch iterator of ANOTHER function
+    // created (and partly drained) while this one is still alive
+    let style = r.below(7);
+    let j = r.usize(0, xs.len().min(5));
+    let other: Piecewise<T> = {
+        let n2 = r.usize(1, 12);
+        let e2 = gen_ends_any(r, n2).0;
+        let c2: Vec<Vec<f64>> = (0..e2.len()).map(|_| (0..T::LEN).map(|_| r.mixed(2.0)).collect()).collect();
+        pw_from(&e2, &c2)
+    };
+    m.count(["batch_style:collect", "batch_style:next_then_for_each", "batch_style:unbounded_source_take", "batch_style:filter_source",
+        "batch_style:fold", "batch_style:two_live_iterators", "batch_style:for_each"][style as usize]);
+    let outs: Vec<f64> = match guard(|| {
+        let n = xs.len();
+        match style {
+            0 => pw.evaluate_v(xs.iter().cloned()).collect::<Vec<f64>>(),
+            1 => {
+                let mut it = pw.evaluate_v(xs.iter().cloned());
+                let mut out = Vec::new();
+                for _ in 0..j {
+                    if let Some(v) = it.next() {
+                        out.push(v);
+                    }
+                }
+                it.for_each(|v| out.push(v));
+                out
+            }
+            2 => pw.evaluate_v(xs.iter().cloned().chain(std::iter::repeat(f64::INFINITY))).take(n).collect(),
+            3 => pw.evaluate_v(xs.iter().cloned().filter(|_| true)).collect(),
+            4 => pw.evaluate_v(xs.iter().cloned()).fold(Vec::new(), |mut v, y| {
+                v.push(y);
+                v
+            }),
+            5 => {
+                let mut it = pw.evaluate_v(xs.iter().cloned());
+                let mut out = Vec::new();
+                for _ in 0..j {
+                    if let Some(v) = it.next() {
+                        out.push(v);
+                    }
+                }
+                let mut it2 = other.evaluate_v(xs.iter().rev().cloned());
+                let _ = it2.next();
+                for v in it.by_ref() {
+                    out.push(v);
+                    let _ = it2.next();
+                }
+                out
+            }
+            _ => {
+                let mut out = Vec::new();
+                pw.evaluate_v(xs.iter().cloned()).for_each(|v| out.push(v));
+                out
+            }
+        }
+    }) {
         Ok(o) => o,
         Err(p) => {
             m.panic("real evaluate_v panic", &p, || json!({"type": T::NAME, "ends": hxs(&ends), "xs": hxs(&xs)}));
@@ -235,6 +291,9 @@ pub fn canaries(m: &mut Mon) {
 }
 
 pub const FLOORS: &[&str] = &[
+    "batch_style:two_live_iterators",
+    "batch_style:unbounded_source_take",
+    "batch_style:next_then_for_each",
     "checked_against_pointwise",
     "checked_against_running_max_rule",
     "argument_below_running_max",
